@@ -374,7 +374,7 @@ META = {
     'level_note': 'Trusted: pyvc engine; lower() is an ASCII character-wise homomorphism (uninterpreted + axioms in proofs, '
                   'interpreted for strings of length <= 2 in counterexample search); hash(str) an arbitrary function. '
                   'Unverified and named: item-name producers of item_factory.py, SchedulerConfig.match_item_keys (lower-cases '
-                  'both arguments first, by reading), SeparateModesKernel, the end-to-end "same generated code up to case". Bounded, never counted as proved: one 4-file project (type-bound procedure, generic interface, module function, USE ... ONLY, block / ignore / role configuration entries) in 9 case-permuted spellings against the lower-case run (bounded/C23_project.py): item kinds, names, flags, edges, applications with targets and order along edges agree up to case.',
+                  'both arguments first, by reading), SeparateModesKernel, the end-to-end "same generated code up to case". Bounded, never counted as proved: SchedulerConfig.match_item_keys over all case permutations of 4 names x 8 plain keys and 6 fnmatch patterns, with and without parent matching (bounded/C23_native.py, run on every check); one 4-file project (type-bound procedure, generic interface, module function, USE ... ONLY, block / ignore / role configuration entries) in 9 case-permuted spellings against the lower-case run (bounded/C23_project.py): item kinds, names, flags, edges, applications with targets and order along edges agree up to case.',
     'trusted_base': ['pyvc engine', 'lower(): ASCII homomorphism', 'hash(str): arbitrary function of the string'],
     'assumptions': ['item names handed to the transformations are canonical (lower case), as produced by the item factory',
                     'termination not proved'],
@@ -399,6 +399,15 @@ def bounded_checks(tier, seed):
     if line is None:
         return [{'name': 'native/case-permuted-project', 'cases': 0, 'violation': False, 'error': p.stderr[-600:], 'rule': rule}]
     d = json.loads(line)
-    return [{'name': 'native/case-permuted-project', 'cases': d['cases'], 'distinct': d['cases'], 'rule': rule,
-             'bound': 'one project, 9 spellings', 'violation': bool(d['violation']), 'cex': d.get('cex'),
-             'n_violations': d.get('n_violations', 0)}]
+    out = [{'name': 'native/case-permuted-project', 'cases': d['cases'], 'distinct': d['cases'], 'rule': rule,
+            'bound': 'one project, 9 spellings', 'violation': bool(d['violation']), 'cex': d.get('cex'),
+            'n_violations': d.get('n_violations', 0)}]
+    # the string matcher over all case permutations, plain and pattern keys, with and without parent matching
+    m = bounded_standin('match_item_keys (always run)', tier)
+    if m is not None:
+        m = dict(m)
+        m.pop('for_obligation', None)
+        m['rule'] = ('all lower/UPPER/Capitalised permutations per name piece of 4 item names x 8 plain keys (+ 6 fnmatch '
+                     'patterns with use_pattern_matching), with and without match_item_parents; matches compared across spellings')
+        out.append(m)
+    return out
